@@ -90,10 +90,12 @@ def gen_body(rng, B, D, depth, n, ops):
             out.append(pick_element(rng, B))
     return out
 
-def gen_operator_group(rng, B, D):
+OPERATOR_KINDS = ["201", "202", "201+202", "204", "205", "206", "207", "208", "203"]
+
+def gen_operator_group(rng, B, D, kind=None):
     """an operator, the elements it governs, and (usually) its cancellation"""
     p = pool_of(B)
-    k = rng.choice(["201", "202", "201+202", "204", "205", "206", "207", "208", "203"])
+    k = kind or rng.choice(OPERATOR_KINDS)
     els = [pick_element(rng, B) for _ in range(rng.choice([1, 2, 3]))]
     def wide_enough(delta):
         # keep every numeric width in 1..32 (the property's quantifier)
